@@ -27,11 +27,14 @@ ASSUMPTIONS = ['reference semantics of the ayns child API on mappings: set_child
 TIERS = {'quick': {'cases': 4000, 'budget': 60}, 'thorough': {'cases': 150000, 'budget': 900}}
 MIN_COUNTERS = {'contract_evaluations': 1}
 
-_contract = {'n': 0, 'fail': []}
+_contract = {'n': 0, 'fail': [], 'known': []}
 
-KEYS = ['a', 'b', 'c', '_u', 'k1', 'x_y', 7, 0, 1]
+KEYS = ['a', 'b', 'c', '_u', 'k1', 'x_y', 7, 0, 1, 'a.b', 'x-y']
 RESERVED = ['items', 'keys', 'pop', 'update', 'ayns']        # names of class attributes: refused as new keys by design (C01), whatever the operation
 RENAME_TO = KEYS + RESERVED[:3]
+
+
+KNOWN_PATH = 'path-text-grammar-cannot-express-non-identifier-key'
 
 
 class ContractBroken(AssertionError):
@@ -61,6 +64,14 @@ def init(tier):
             back = list(cls.split_path(ret)) if ret else []
             if back != comps:
                 _contract['fail'].append(f'join_path({comps!r}) = {ret!r} splits back into {back!r}')
+        elif all(isinstance(c, str) or (type(c) is int and c >= 0) for c in comps):
+            # keys the path grammar has no spelling for (recorded finding): only [A-Za-z0-9_]+ names and [i] indices can be written
+            try:
+                back = list(cls.split_path(ret)) if ret else []
+            except Exception as e:
+                back = f'{type(e).__name__}: {e}'
+            if back != comps:
+                _contract['known'].append(f'join_path({comps!r}) = {ret!r} splits back into {back!r}')
         return ret
     NodePath.join_path = classmethod(join_path)
     return {'contracts': ['ConfigList._validate_index result in 0..len (icontract.ensure)', 'NodePath.join_path/split_path round trip']}
@@ -454,6 +465,10 @@ def run(case):
     if _contract['fail']:
         vio.append({'mech': 'path-roundtrip-contract', 'what': _contract['fail'].pop()})
         _contract['fail'].clear()
+    if _contract['known']:
+        if not vio:
+            vio.append({'mech': KNOWN_PATH, 'what': _contract['known'][-1]})
+        del _contract['known'][:]
     res = {'status': 'violation' if vio else 'ok', 'nontrivial': len(case['ops']) >= 3 and did_list and did_dict, 'feats': sorted(set(feats)),
            'evals': max(1, len(history))}
     if vio:
